@@ -326,6 +326,19 @@ add_big("fragmented/DINT[130]@500-just-over", 130, 500, 4)
 add_big("fragmented/DINT[1100]@4000", 1100, 4000, 4, tier="thorough", timeout=900)
 
 
+
+def _add_string_array_element(idx, ln):
+    def build(xs):
+        cps = list(xs[:ln])
+        return [(f"S5A[{idx}]", mkstr(cps), "S5A", [("int", 12 * idx, 4, True, ln), ("raw", 12 * idx + 4, cps + [0] * (8 - ln))],
+                 lambda v, cps=cps: len(v) == len(cps) and all(ord(v[i]) == cps[i] for i in range(len(cps))))]
+    add(f"string/S5A[{idx}]/len{ln}", ["S5A"], ln, build, val_pre=lambda xs: all(0 <= x < 256 for x in xs), timeout=300,
+        desc=f"one element of an array of strings written from a str of {ln} symbolic characters: only that element changes")
+
+
+_add_string_array_element(1, 3)
+_add_string_array_element(2, 5)
+
 # ---- deeper shapes (added in the second pass): nested structure dicts, list of structure dicts
 add("struct/O1-nested-dict", ["O1"], 5, lambda xs: [("O1", {"inner": {"a": xs[0], "b0": xs[1] == 1, "b1": False, "arr": [xs[2], 7], "r": mkfloat(xs[3], 4)}, "s": xs[4], "w": 9}, "O1",
                                                       [("int", 0, 4, True, xs[0]), ("bit", 4, 0, xs[1] == 1), ("bit", 4, 1, False), ("int", 6, 2, True, xs[2]), ("int", 8, 2, True, 7),
